@@ -304,11 +304,9 @@ def eigen(X, P, NSIG=None, method='music', threshold=None, NFFT=default_NFFT,
 
     # for some reasons, we need to rearrange the output. this is related to
     # the way U and V are order in the routine svd
-    nby2 = int(NFFT/2)
-
-    #return PSD, S
-
-    newpsd = np.append(PSD[nby2:0:-1], PSD[nby2*2-1:nby2-1:-1])
+    # PSD[k] is the value at the frequency -k/NFFT: first get the two-sided
+    # PSD in the FFT order, then the center-dc version (NFFT values).
+    newpsd = twosided_2_centerdc(np.roll(PSD[::-1], 1))
     return newpsd, S
 
 
